@@ -1,6 +1,7 @@
 package main
 
 import (
+	"go/token"
 	"go/types"
 
 	"golang.org/x/tools/go/ssa"
@@ -186,6 +187,81 @@ func (u *Unit) havocConcurrent(fr *Frame, st *State, why string) {
 			u.havocHeaps(st, hs, why)
 		}
 	}
+	for _, s := range keep {
+		v := s.v
+		if v.T.S != "" {
+			v.T = u.def(v.T)
+		}
+		u.store(st, s.l, v)
+	}
+}
+
+// privateBox: the address of this escaping local is known only to closures created in the same
+// function that are deferred or called directly there (never stored or passed on): no callee can
+// reach the variable.
+func privateBox(a *ssa.Alloc) bool {
+	refs := a.Referrers()
+	if refs == nil {
+		return true
+	}
+	for _, r := range *refs {
+		switch i := r.(type) {
+		case *ssa.Store:
+			if i.Val == ssa.Value(a) {
+				return false
+			}
+		case *ssa.UnOp:
+			if i.Op != token.MUL {
+				return false
+			}
+		case *ssa.DebugRef:
+		case *ssa.MakeClosure:
+			mrefs := i.Referrers()
+			if mrefs == nil {
+				continue
+			}
+			for _, mr := range *mrefs {
+				switch m := mr.(type) {
+				case *ssa.Defer:
+					if m.Call.Value != ssa.Value(i) {
+						return false
+					}
+				case *ssa.Call:
+					if m.Call.Value != ssa.Value(i) {
+						return false
+					}
+				case *ssa.DebugRef:
+				default:
+					return false
+				}
+			}
+		default:
+			return false
+		}
+	}
+	return true
+}
+
+// havocAllCall: arbitrary heap effects of a call; local variables no callee can reach keep their values.
+func (u *Unit) havocAllCall(fr *Frame, st *State, why string) {
+	type saved struct {
+		l *Loc
+		v Val
+	}
+	var keep []saved
+	for f := fr; f != nil; f = f.parent {
+		for _, bl := range f.boxed {
+			if !privateBox(bl.alloc) {
+				continue
+			}
+			l := u.pointerLoc(st, Val{T: bl.ref}, bl.alloc.Type())
+			if l.Kind == LOpaque {
+				continue
+			}
+			keep = append(keep, saved{l, u.load(st, l)})
+		}
+	}
+	u.havocHeaps(st, nil, why)
 	for _, s := range keep {
 		v := s.v
 		if v.T.S != "" {
